@@ -414,3 +414,34 @@ def r3(ctx: Ctx) -> None:
     want = ("comp", "list", (b1,), ((b0, ("a", s_, "modules"), ("k", "bool", True)), (b1, ("a", b0, "rectangles"), ("k", "bool", True))))
     if len(sets) != 1 or sets[0][2] != want:
         ctx.report(fcr.where, "all-rectangles", "the netlist rectangle list is not the concatenation of all module rectangle lists", lineno=fcr.node.lineno)
+
+
+@rule("C05", "R4.flag-propagation", "DATAFLOW",
+      "every rectangle the netlist reader builds for a module receives that module's fixed and hard flags (all spellings of "
+      "the rectangle list, and later re-assignment): fixed_rectangles() and the 'hard rectangle cannot have a region' "
+      "rejection depend on them", floor=3)
+def r4(ctx: Ctx) -> None:
+    n = 0
+    for rel, q, want in [(YREAD, "parse_yaml_rectangles", ("fixed", "hard")), (NETLIST, "Netlist.assign_rectangles", ("is_fixed", "is_hard"))]:
+        f = ctx.func(rel, q)
+        calls = [c_ for c_ in walk_own(f.node) if isinstance(c_, ast.Call) and call_name(c_) == "parse_yaml_rectangle"]
+        ctx.require(len(calls) >= 1, f"{q}: no parse_yaml_rectangle call")
+        for c_ in calls:
+            n += 1
+            args = [ast.unparse(a) for a in c_.args[1:]] + [f"{k.arg}={ast.unparse(k.value)}" for k in c_.keywords]
+            ok = len(c_.args) + len(c_.keywords) == 3 and any(want[0] in a for a in args) and any(want[1] in a for a in args)
+            if ok and len(c_.args) == 3:
+                ok = want[0] in ast.unparse(c_.args[1]) and want[1] in ast.unparse(c_.args[2])
+            ctx.site(f.where, "rectangle parsed with the module's fixed and hard flags", call=ast.unparse(c_)[:100], ok=ok)
+            if not ok:
+                ctx.report(f.where, f"flags-dropped {ast.unparse(c_)[:80]}", f"{q} builds a rectangle without the module's fixed/hard flags (in that order): the rectangle of a "
+                           "fixed module is not reported by fixed_rectangles() and a hard rectangle with a region is accepted", lineno=c_.lineno)
+    fm = ctx.func(YREAD, "parse_yaml_module")
+    calls = [c_ for c_ in walk_own(fm.node) if isinstance(c_, ast.Call) and call_name(c_) == "parse_yaml_rectangles"]
+    ctx.site(fm.where, "module reader passes m.is_fixed, m.is_hard to the rectangle-list reader", calls=len(calls))
+    for c_ in calls:
+        n += 1
+        ok = len(c_.args) == 3 and "is_fixed" in ast.unparse(c_.args[1]) and "is_hard" in ast.unparse(c_.args[2])
+        if not ok:
+            ctx.report(fm.where, f"flags-dropped {ast.unparse(c_)[:80]}", "parse_yaml_module does not hand the module's (is_fixed, is_hard) to the rectangle reader", lineno=c_.lineno)
+    ctx.require(n >= 3, "fewer rectangle-construction sites than confirmed")
